@@ -20,6 +20,7 @@
 #ifndef THETA_SKETCH_IMPL_HPP_
 #define THETA_SKETCH_IMPL_HPP_
 
+#include <algorithm>
 #include <sstream>
 #include <vector>
 #include <stdexcept>
@@ -584,6 +585,31 @@ compact_theta_sketch_alloc<A> compact_theta_sketch_alloc<A>::deserialize(std::is
   }
 }
 
+// The length of a stream is unknown, so the announced number of entries cannot be checked against it.
+// The array is grown as the data arrives (doubling, never beyond the announced number)
+// so that a corrupted count cannot force a huge allocation before any entry has been read.
+template<typename A>
+void compact_theta_sketch_alloc<A>::grow_entries(std::vector<uint64_t, A>& entries, uint32_t num_entries) {
+  const size_t min_chunk = 4096;
+  const size_t size = entries.size();
+  const size_t new_size = std::min<size_t>(num_entries, size + std::max(size, min_chunk));
+  entries.reserve(new_size);
+  entries.resize(new_size, 0);
+}
+
+template<typename A>
+std::vector<uint64_t, A> compact_theta_sketch_alloc<A>::read_entries(std::istream& is, uint32_t num_entries, const A& allocator) {
+  std::vector<uint64_t, A> entries(allocator);
+  size_t done = 0;
+  while (done < num_entries) {
+    grow_entries(entries, num_entries);
+    read(is, entries.data() + done, sizeof(uint64_t) * (entries.size() - done));
+    if (!is.good()) throw std::runtime_error("error reading from std::istream");
+    done = entries.size();
+  }
+  return entries;
+}
+
 template<typename A>
 compact_theta_sketch_alloc<A> compact_theta_sketch_alloc<A>::deserialize_v1(
     uint8_t, std::istream& is, uint64_t seed, const A& allocator)
@@ -595,10 +621,8 @@ compact_theta_sketch_alloc<A> compact_theta_sketch_alloc<A>::deserialize_v1(
   read<uint32_t>(is); //unused
   const auto theta = read<uint64_t>(is);
   if (!is.good()) throw std::runtime_error("error reading from std::istream");
-  std::vector<uint64_t, A> entries(num_entries, 0, allocator);
   bool is_empty = (num_entries == 0) && (theta == theta_constants::MAX_THETA);
-  if (!is_empty) read(is, entries.data(), sizeof(uint64_t) * entries.size());
-  if (!is.good()) throw std::runtime_error("error reading from std::istream");
+  auto entries = read_entries(is, num_entries, allocator);
   return compact_theta_sketch_alloc(is_empty, true, seed_hash, theta, std::move(entries));
 }
 
@@ -618,12 +642,10 @@ compact_theta_sketch_alloc<A> compact_theta_sketch_alloc<A>::deserialize_v2(
     const uint32_t num_entries = read<uint32_t>(is);
     read<uint32_t>(is); // unused
     if (!is.good()) throw std::runtime_error("error reading from std::istream");
-    std::vector<uint64_t, A> entries(num_entries, 0, allocator);
+    auto entries = read_entries(is, num_entries, allocator);
     if (num_entries == 0) {
       return compact_theta_sketch_alloc(true, true, seed_hash, theta_constants::MAX_THETA, std::move(entries));
     }
-    read(is, entries.data(), entries.size() * sizeof(uint64_t));
-    if (!is.good()) throw std::runtime_error("error reading from std::istream");
     return compact_theta_sketch_alloc(false, true, seed_hash, theta_constants::MAX_THETA, std::move(entries));
   } else if (preamble_longs == 3) {
     const uint32_t num_entries = read<uint32_t>(is);
@@ -631,15 +653,8 @@ compact_theta_sketch_alloc<A> compact_theta_sketch_alloc<A>::deserialize_v2(
     const auto theta = read<uint64_t>(is);
     if (!is.good()) throw std::runtime_error("error reading from std::istream");
     bool is_empty = (num_entries == 0) && (theta == theta_constants::MAX_THETA);
-    std::vector<uint64_t, A> entries(num_entries, 0, allocator);
-    if (is_empty) {
-      if (!is.good()) throw std::runtime_error("error reading from std::istream");
-      return compact_theta_sketch_alloc(true, true, seed_hash, theta, std::move(entries));
-    } else {
-      read(is, entries.data(), sizeof(uint64_t) * entries.size());
-      if (!is.good()) throw std::runtime_error("error reading from std::istream");
-      return compact_theta_sketch_alloc(false, true, seed_hash, theta, std::move(entries));
-    }
+    auto entries = read_entries(is, num_entries, allocator);
+    return compact_theta_sketch_alloc(is_empty, true, seed_hash, theta, std::move(entries));
   } else {
     throw std::invalid_argument(std::to_string(preamble_longs) + " longs of premable, but expected 1, 2, or 3");
   }
@@ -666,10 +681,8 @@ compact_theta_sketch_alloc<A> compact_theta_sketch_alloc<A>::deserialize_v3(
     }
   }
   if (!is.good()) throw std::runtime_error("error reading from std::istream");
-  std::vector<uint64_t, A> entries(num_entries, 0, allocator);
-  if (!is_empty) read(is, entries.data(), sizeof(uint64_t) * entries.size());
+  auto entries = read_entries(is, num_entries, allocator);
   const bool is_ordered = flags_byte & (1 << flags::IS_ORDERED);
-  if (!is.good()) throw std::runtime_error("error reading from std::istream");
   return compact_theta_sketch_alloc(is_empty, is_ordered, seed_hash, theta, std::move(entries));
 }
 
@@ -693,17 +706,20 @@ compact_theta_sketch_alloc<A> compact_theta_sketch_alloc<A>::deserialize_v4(
   }
   if (!is.good()) throw std::runtime_error("error reading from std::istream");
   vector_bytes buffer(entry_bits, 0, allocator); // block of 8 entries takes entry_bits bytes
-  std::vector<uint64_t, A> entries(num_entries, 0, allocator);
+  std::vector<uint64_t, A> entries(allocator);
 
   // unpack blocks of 8 deltas
   unsigned i;
   for (i = 0; i + 7 < num_entries; i += 8) {
     read(is, buffer.data(), buffer.size());
+    if (!is.good()) throw std::runtime_error("error reading from std::istream");
+    if (i == entries.size()) grow_entries(entries, num_entries); // to a multiple of 8 or to num_entries
     unpack_bits_block8(&entries[i], buffer.data(), entry_bits);
   }
   // unpack extra deltas if fewer than 8 of them left
   if (i < num_entries) read(is, buffer.data(), whole_bytes_to_hold_bits((num_entries - i) * entry_bits));
   if (!is.good()) throw std::runtime_error("error reading from std::istream");
+  if (i < num_entries && i == entries.size()) grow_entries(entries, num_entries);
   const uint8_t* ptr = buffer.data();
   uint8_t offset = 0;
   for (; i < num_entries; ++i) {
